@@ -473,6 +473,11 @@ class GaussianDistribution(BaseDistribution):
         if not inplace:
             return phi
 
+        self.variables = phi.variables
+        self.mean = phi.mean
+        self.covariance = phi.covariance
+        self._precision_matrix = None
+
     def product(self, other, inplace=True):
         """
         TODO: Make it work when using `*` instead of product.
